@@ -230,4 +230,76 @@ theorem faultSeen_init (hw : FltWriter wr flt) (pieces : Bytes → List Bytes) (
 
 end faults
 
+/-! ## bounded buffering -/
+
+section bounded
+variable {ω : Type} (wr : ω → Bytes → Bool × ω)
+
+theorem emit_buf (cfg : Cfg) (f : Bool) (st : PSt ω) : (emitBlock wr cfg f st).2.buf = st.buf.drop cfg.bs := by
+  generalize hres : emitBlock wr cfg f st = r
+  unfold emitBlock at hres
+  by_cases hr : readPanics cfg.v1shape f cfg.bs (st.buf.take cfg.bs).length (st.buf.drop cfg.bs).length = true
+  · simp only [hr, if_true] at hres; subst hres; rfl
+  · simp only [hr, Bool.false_eq_true, if_false] at hres
+    cases hpk : cfg.pkt st.n (st.buf.take cfg.bs) f with
+    | error e => simp only [hpk] at hres; subst hres; rfl
+    | ok b =>
+      simp only [hpk] at hres
+      by_cases ha : assertPanics cfg.v1shape f (st.buf.take cfg.bs).length st.n = true
+      · simp only [ha, if_true] at hres; subst hres; rfl
+      · simp only [ha, Bool.false_eq_true, if_false] at hres
+        cases he : Codec.encode wr cfg.pieces st.codec b with
+        | mk ok c' =>
+          simp only [he] at hres
+          cases ok <;> (simp only at hres; subst hres; rfl)
+
+theorem writeLoop_buf (cfg : Cfg) (hb : 0 < cfg.bs) (len : Nat) : ∀ (fuel : Nat) (st : PSt ω),
+    (writeLoop wr cfg len fuel st).2.2.buf.length ≤ st.buf.length ∧
+    (st.buf.length < fuel → (writeLoop wr cfg len fuel st).2.1 = none →
+      (writeLoop wr cfg len fuel st).2.2.buf.length ≤ cfg.bs) := by
+  intro fuel
+  induction fuel with
+  | zero => intro st; exact ⟨Nat.le_refl _, fun h => by omega⟩
+  | succ fuel ih =>
+    intro st
+    unfold writeLoop
+    by_cases hgt : st.buf.length > cfg.bs
+    · rw [if_pos hgt]
+      have hbuf := emit_buf wr cfg false st
+      have hlen : (st.buf.drop cfg.bs).length = st.buf.length - cfg.bs := List.length_drop
+      cases he : emitBlock wr cfg false st with
+      | mk r st' =>
+        rw [he] at hbuf
+        simp only at hbuf
+        cases r with
+        | none =>
+          simp only
+          obtain ⟨i1, i2⟩ := ih st'
+          rw [hbuf, hlen] at i1 i2
+          exact ⟨by omega, fun hf hn => i2 (by omega) hn⟩
+        | some e =>
+          simp only
+          refine ⟨?_, fun _ h => by cases h⟩
+          by_cases hh : cfg.hasErr = true
+          · simp only [hh, if_true]; rw [hbuf, hlen]; omega
+          · simp only [hh, Bool.false_eq_true, if_false]; rw [hbuf, hlen]; omega
+    · rw [if_neg hgt]
+      exact ⟨Nat.le_refl _, fun _ _ => Nat.le_of_not_gt hgt⟩
+
+/-- **Bounded buffering, in every state**: a `Write` never leaves more in the
+    buffer than was there plus what it was given; one that reports success
+    leaves at most one block, whatever happened before -/
+theorem write_buf (cfg : Cfg) (hb : 0 < cfg.bs) (st : PSt ω) (p : Bytes) :
+    (st.write wr cfg p).2.2.buf.length ≤ st.buf.length + p.length ∧
+    ((st.write wr cfg p).2.1 = none → (st.write wr cfg p).2.2.buf.length ≤ cfg.bs) := by
+  unfold PSt.write
+  cases he : (if cfg.hasErr then st.err else none) with
+  | some e => exact ⟨by simp only; omega, fun h => by cases h⟩
+  | none =>
+    simp only
+    obtain ⟨h1, h2⟩ := writeLoop_buf wr cfg hb p.length ((st.buf ++ p).length + 1) { st with buf := st.buf ++ p }
+    exact ⟨by simpa using h1, fun h => h2 (by simp) h⟩
+
+end bounded
+
 end Saltpack.Proofs.SenderP
